@@ -46,11 +46,33 @@ def plan(tier, seed):
     n = 5000 if tier == 'quick' else 100000
     nb = 140 if tier == 'quick' else 3000
     return ([{'kind': 'random', 'seed': seed, 'idx': i} for i in range(n)] +
-            [{'kind': 'sweep', 'seed': seed, 'idx': i} for i in range(nb)])
+            [{'kind': 'sweep', 'seed': seed, 'idx': i} for i in range(nb)] +
+            [{'kind': 'live', 'seed': seed, 'idx': i} for i in range(3 if tier == 'quick' else 30)])
+
+
+def live_case(spec, res):
+    """the same oracle with /proc as the process table: a real circusd, real workers"""
+    from vlib import livehist
+    rnd = rng_for(spec['seed'], 'C09-live', spec['idx'])
+    ls = livehist.gen_spec(rnd, nsteps=5)
+    rec = livehist.run(ls)
+    if rec['problem']:
+        res.inconclusive.append('live: ' + rec['problem'][:200])
+        return
+    livehist.judge_events(rec, res)
+    res.obs['live_daemons'] += 1
+    res.nontrivial(repr(('live', [(w['kind'], w['np']) for w in ls['watchers']], ls['steps'])))
+    res.sample = {'live': True, 'watchers': ls['watchers'], 'steps': ls['steps'], 'quiescent_points': len(rec['points']),
+                  'events': len(rec['events'])}
 
 
 def run_case(spec):
     res = CaseResult()
+    if spec.get('kind') == 'live':
+        live_case(spec, res)
+        for v in res.viol:
+            v['spec'] = spec
+        return res
     if 'steps' in spec:
         run_history(spec, res)
         return res
